@@ -1,0 +1,17 @@
+//go:build verif
+
+package file
+
+import (
+	"os"
+
+	"github.com/ozontech/file.d/pipeline"
+)
+
+// Exported wrappers for the verification harness (C19): the batch payload builder.
+
+// VerifOut calls the unexported out() with the given worker data.
+func (p *Plugin) VerifOut(wd *pipeline.WorkerData, b *pipeline.Batch) { p.out(wd, b) }
+
+// VerifFile is the file the plugin currently writes to.
+func (p *Plugin) VerifFile() *os.File { return p.file }
